@@ -811,6 +811,5 @@ def collect_as_lists(
         # Translate original output names to renamed names
         renamed_values = node.map_outputs_from_original(result.values)
         for name in node.outputs:
-            if name in renamed_values:
-                collected[name].append(renamed_values[name])
+            collected[name].append(renamed_values.get(name))
     return collected
